@@ -2,6 +2,7 @@ package main
 
 import (
 	"bytes"
+	"crypto/ecdsa"
 	"crypto/ed25519"
 	"crypto/elliptic"
 	"crypto/rand"
@@ -289,6 +290,25 @@ func genC06(r *Rng, tier string) []Case {
 				mut(func(m *bundle.Exchange) { m.Response.Body = m.Response.Body[:len(m.Response.Body)-1] })
 			}
 			mut(func(m *bundle.Exchange) { m.Response.Body = append(m.Response.Body, 0) })
+		}
+		// a second certificate for the SAME key appended to the authorities: re-pointing a
+		// subset at it must fail (auth-sha256 names the signer's own certificate)
+		{
+			leaf := infos[0].leaf
+			twin := newCert(&leaf.priv.(*ecdsa.PrivateKey).PublicKey, leaf.priv, "twin."+leaf.cert.DNSNames[0], 7)
+			twinCert, _ := x509.ParseCertificate(twin)
+			c := cloneSigs(b.Signatures)
+			c.Authorities = append(c.Authorities, &certurl.AugmentedCertificate{Cert: twinCert})
+			xt2 := L(append(append([]Sx{}, xt.L...), L(B(twin), Zi(int64(leaf.kid))))...)
+			for _, a := range []uint64{0, uint64(len(c.Authorities) - 1)} {
+				c2 := cloneSigs(c)
+				c2.VouchedSubsets[0].Authority = a
+				xsx := []Sx{}
+				for _, e := range b.Exchanges {
+					xsx = append(xsx, inSx(e))
+				}
+				cs = append(cs, Case{"bsig_verify", []Sx{sigsSx(c2), Zi(t0), Zi(0), Sym(string(ver)), L(xsx...), xt2, sigTabFor(c2, ver)}})
+			}
 		}
 		// mutations of the signatures section
 		for vi := range b.Signatures.VouchedSubsets {
